@@ -3,6 +3,9 @@ import Tmv.Lemmas.MerkleRootInj
 import Tmv.Lemmas.MerkleRootInjTraced
 import Tmv.Model.ValidateCommit
 import Tmv.Props.C07
+import Tmv.Model.ValidateFull
+import Tmv.Props.C08
+import Tmv.Props.C11
 /-! # C06 — Block validation is exact and the state transition is a deterministic function
 Property theorems only. Hash functions, `VerifyCommit` (C07) and evidence admissibility (C11) are
 the fields of an arbitrary `Env`; nothing is assumed about them. -/
@@ -777,6 +780,212 @@ theorem makeBlock_valid_reachable_partial (env : Env) (incr : ValSet → ValSet)
               evSize := hes, evAdm := hea }
     · intro _; exact htime h0
 
+/-! ### the transition with C08's validator arithmetic inside -/
+
+theorem natOfBytes_append (l : Bytes) (x : UInt8) : natOfBytes (l ++ [x]) = natOfBytes l * 256 + x.toNat := by
+  simp [natOfBytes, List.foldl_append]
+
+theorem natOfBytes_bytesOfNatF : ∀ (f n : Nat), n < f → natOfBytes (bytesOfNatF f n) = n := by
+  intro f
+  induction f with
+  | zero => intro n h; omega
+  | succ f ih =>
+    intro n h
+    unfold bytesOfNatF
+    split
+    · rename_i hn
+      simp [natOfBytes, Nat.mod_eq_of_lt hn]
+    · rename_i hn
+      rw [natOfBytes_append, ih (n / 256) (by omega)]
+      simp
+      omega
+
+theorem natOfBytes_bytesOfNat (n : Nat) : natOfBytes (bytesOfNat n) = n :=
+  natOfBytes_bytesOfNatF (n + 1) n (by omega)
+
+/-- going to C08's record and back loses nothing C08 looks at -/
+theorem toVal_back (dir : List Validator) (v : ValSet.Val) : toVal (back dir v) = v := by
+  unfold back
+  split
+  · rename_i d hd
+    have := List.find?_some hd
+    simp only [beq_iff_eq] at this
+    simp [toVal, this]
+  · simp [toVal, natOfBytes_bytesOfNat]
+
+theorem map_toVal_back (dir : List Validator) (l : List ValSet.Val) : (l.map (back dir)).map toVal = l := by
+  induction l with
+  | nil => rfl
+  | cons v r ih => simp only [List.map_cons, toVal_back, ih]
+
+open Tmv.ValSet (Reach PBound sumPower)
+
+/-- the validator part of a state, read in C08's terms, is reachable there: unique addresses,
+positive powers, canonical order, `0 < total ≤ MaxTotalVotingPower`, priorities within
+`3·MaxTotalVotingPower` (no int64 clamp or wrap is ever taken on such sets) -/
+def VReach (st : State) : Prop := Reach (st.vals.map toVal) ∧ Reach (st.nextVals.map toVal)
+
+/-- one step of C08's arithmetic keeps a reachable set reachable, with the new priorities within
+`3·total` -/
+theorem nextVSet_reach (cur ch nv : List ValSet.Val) (hr : Reach cur) (h : nextVSet cur ch = some nv) :
+    Reach nv ∧ (∃ mid : List ValSet.Val, Reach mid ∧ PBound (3 * sumPower mid) nv) := by
+  unfold nextVSet at h
+  by_cases hc : ch = []
+  · subst hc
+    simp only [ne_eq, not_true_eq_false, if_false] at h
+    obtain ⟨s1, hs1, hr1, _, hb, _⟩ := Tmv.Props.C08.priorities_no_clip ⟨cur, none⟩ hr
+    rw [hs1] at h
+    simp only [Option.some.injEq] at h
+    subst h
+    exact ⟨hr1, cur, hr, hb⟩
+  · simp only [ne_eq, hc, not_false_eq_true, if_true] at h
+    split at h
+    · cases h
+    · rename_i hu
+      have hupd : ValSet.updateWithChangeSet ⟨cur, none⟩ ch true =
+          ((ValSet.updateWithChangeSet ⟨cur, none⟩ ch true).1, none) := by
+        rw [← hu]
+      obtain ⟨hr2, _⟩ := Tmv.Props.C08.update_reach _ _ ch true (Or.inl hr) hc hupd
+      obtain ⟨s1, hs1, hr1, _, hb, _⟩ := Tmv.Props.C08.priorities_no_clip _ hr2
+      rw [hs1] at h
+      simp only [Option.some.injEq] at h
+      subst h
+      exact ⟨hr1, _, hr2, hb⟩
+
+theorem updateStateV_nextVals (env : Env) (addrOf : Bytes → Bytes) (st st' : State) (bid : BlockID)
+    (h : Int) (t : Time) (upd : List ValUpdate) (pu : Option ParamUpdate) (rs : List TxResult)
+    (hok : updateStateV env addrOf st bid h t upd pu rs = .ok st') :
+    ∃ nv, nextVals addrOf st.nextVals upd = some nv ∧ st'.nextVals = nv ∧ st'.vals = st.nextVals ∧
+      st'.lastVals = st.vals := by
+  unfold updateStateV at hok
+  split at hok
+  · cases hok
+  · split at hok
+    · cases hok
+    · rename_i nv hnv
+      refine ⟨nv, hnv, ?_, ?_, ?_⟩
+      · unfold updateState at hok
+        simp only [ite_self] at hok
+        cases pu with
+        | none => simp only [Except.ok.injEq] at hok; subst hok; rfl
+        | some u =>
+          simp only at hok
+          split at hok
+          · cases hok
+          · simp only [Except.ok.injEq] at hok; subst hok; rfl
+      · exact (updateState_shape _ _ _ _ _ _ _ _ _ _ _ hok).2.2.2.1
+      · exact (updateState_shape _ _ _ _ _ _ _ _ _ _ _ hok).2.2.2.2.1
+
+/-- **The transition with the validator arithmetic inside.** `applyBlockV` is a function of
+(state, block, block id, application responses) — nothing else enters; and when it accepts,
+the next state's validator sets are the current `NextValidators` (now `Validators`), the
+current `Validators` (now `LastValidators`), and a `NextValidators` that C08's
+`updateWithChangeSet` + one `IncrementProposerPriority` computed: well-formed (unique addresses,
+positive powers, canonical order, total within `MaxTotalVotingPower`) with priorities within
+`3·MaxTotalVotingPower`, i.e. computed without any int64 clamp or wrap. So two nodes applying the
+same block with the same responses to the same state hold identical validator sets, priorities
+included. -/
+theorem applyBlockV_reach (env : Env) (addrOf : Bytes → Bytes) (st st' : State) (b : Block)
+    (bid : BlockID) (upd : List ValUpdate) (pu : Option ParamUpdate) (rs : List TxResult) (a : Bytes)
+    (hr : VReach st) (ha : applyBlockV env addrOf st b bid upd pu rs a = .ok st') :
+    VReach st' ∧ st'.vals = st.nextVals ∧ st'.lastVals = st.vals ∧
+      st'.lastBlockHeight = b.header.height ∧ st'.lastBlockID = bid := by
+  unfold applyBlockV at ha
+  split at ha
+  · cases ha
+  · split at ha
+    · cases ha
+    · rename_i s1 hu
+      simp only [Except.ok.injEq] at ha
+      subst ha
+      obtain ⟨nv, hnv, e1, e2, e3⟩ := updateStateV_nextVals _ _ _ _ _ _ _ _ _ _ hu
+      have hsh : s1.lastBlockHeight = b.header.height ∧ s1.lastBlockID = bid := by
+        unfold updateStateV at hu
+        split at hu
+        · cases hu
+        · split at hu
+          · cases hu
+          · have := updateState_shape _ _ _ _ _ _ _ _ _ _ _ hu
+            exact ⟨this.1, this.2.1⟩
+      unfold nextVals at hnv
+      simp only [Option.map_eq_some_iff] at hnv
+      obtain ⟨l, hl, hlm⟩ := hnv
+      obtain ⟨hrl, _⟩ := nextVSet_reach _ _ _ hr.2 hl
+      refine ⟨⟨?_, ?_⟩, e2, e3, hsh.1, hsh.2⟩
+      · show Reach (s1.vals.map toVal); rw [e2]; exact hr.2
+      · show Reach (s1.nextVals.map toVal); rw [e1, ← hlm, map_toVal_back]; exact hrl
+
+
+/-! ### the evidence clause with C11's pool inside -/
+
+theorem firstErr_append (l r : List (Bool × Err)) :
+    firstErr (l ++ r) = match firstErr l with
+      | .error e => .error e
+      | .ok _ => firstErr r := by
+  induction l with
+  | nil => simp [firstErr]
+  | cons p l ih =>
+    obtain ⟨c, e⟩ := p
+    cases c <;> simp [firstErr, ih]
+
+/-- `ValidateBlock` = `validateBlock`, then (only if that passed) the pool's `CheckEvidence`:
+the verdict of `validateWithPool` is the verdict of `validateBlock` in the full environment -/
+theorem validateWithPool_verdict (H : Bytes → Bytes)
+    (sigOK : Nat → CommitVerify.SignBytes → Bytes → Bool) (pe : PoolEnv) (st : State) (b : Block) :
+    (validateWithPool H sigOK pe st b).1 = validateBlock (fullEnv H sigOK pe) st b := by
+  unfold validateWithPool validateBlock
+  cases firstErr (headerGuards b.header) with
+  | error e => rfl
+  | ok u =>
+    cases b.lastCommit with
+    | none => rfl
+    | some c =>
+      simp only [firstErr_append]
+      have hsame : stateGuards { fullEnv H sigOK pe with evAdmissible := fun _ _ => true } st b c
+          = stateGuards (fullEnv H sigOK pe) st b c := rfl
+      rw [hsame]
+      cases firstErr [(badCommit c, Err.lastCommitBasic),
+          (b.header.lastCommitHash != (fullEnv H sigOK pe).hCommit c, .lastCommitHash),
+          (b.header.dataHash != (fullEnv H sigOK pe).hData b.txs, .dataHash),
+          (b.evidence.any (fun e => !e.basic), .evidenceBasic),
+          (b.header.evidenceHash != (fullEnv H sigOK pe).hEv b.evidence, .evidenceHash)] with
+      | error e => rfl
+      | ok u1 =>
+        cases firstErr (stateGuards (fullEnv H sigOK pe) st b c) with
+        | error e => rfl
+        | ok u2 =>
+          show (if _ then _ else _ : Except Err Unit) = firstErr [(!poolAdmits pe b.evidence, Err.evidenceCheck)]
+          unfold poolAdmits
+          cases hq : ((Evidence.step pe.ctx pe.sys (.check (b.evidence.map pe.decode))).2 == .ok) <;>
+            simp [firstErr]
+
+/-- **Accepted ⇒ the evidence is admissible, item by item.** With the evidence pool being C11's
+model (`fullEnv`), on a pool state reachable in C11's sense, a block accepted by `ValidateBlock`
+carries evidence that passes `ValidateBasic`, fits `Evidence.MaxBytes`, and of which every item is
+not committed and — unless another item has the same (height, hash) key, a hash collision — is
+proven against the header time and validator set of its height and has not expired (C11
+`check_admits_only`). -/
+theorem accepted_evidence_admissible (H : Bytes → Bytes)
+    (sigOK : Nat → CommitVerify.SignBytes → Bytes → Bool) (pe : PoolEnv) (st : State) (b : Block)
+    (hm : Evidence.MonoTime pe.ctx) (hr : Evidence.Reach pe.ctx pe.sys) (hd : pe.sys.dead = false)
+    (hsmall : pe.sys.pool.pending.length < 4294967296)
+    (hv : validateBlock (fullEnv H sigOK pe) st b = .ok ()) :
+    (∀ e ∈ b.evidence, e.basic = true) ∧ evByteSize b.evidence ≤ st.params.evMaxBytes ∧
+    ∀ e ∈ b.evidence.map pe.decode,
+      Evidence.isCommitted pe.ctx pe.sys.pool e = false ∧
+      ((Evidence.Proves pe.ctx pe.sys.storeH e ∧
+          Evidence.expired pe.sys.pool.state e.height e.time = false) ∨
+        ∃ x, x ≠ e ∧ Evidence.key pe.ctx x = Evidence.key pe.ctx e) := by
+  rw [validate_iff_spec] at hv
+  obtain ⟨_, _, _, _, _, hb, _, _, _, _, hs, ha⟩ := hv
+  refine ⟨hb, hs, ?_⟩
+  have hok : (Evidence.step pe.ctx pe.sys (.check (b.evidence.map pe.decode))).2 = .ok := by
+    have : poolAdmits pe b.evidence = true := ha
+    unfold poolAdmits at this
+    exact eq_of_beq this
+  exact Tmv.Props.C11.check_admits_only pe.ctx hm hr hd hsmall _ hok
+
+
 /-! ### the hypotheses are satisfiable (non-vacuity) -/
 
 example : HashLen wEnv := by
@@ -843,5 +1052,31 @@ example : validateBlock (cvEnv (fun _ => wHash) (fun _ _ _ => true) (fun _ _ => 
       (makeBlock (cvEnv (fun _ => wHash) (fun _ _ _ => true) (fun _ _ => true)) wState 2 [] gCommit [] (wAddr 2))
       = .ok () ∧ (2 : Int) ≠ wState.initialHeight := by
   refine ⟨by rfl, by decide⟩
+
+/-- the example state's validator sets are reachable in C08's sense -/
+example : VReach wState := by
+  have h : ValSet.Reach (wVals.map toVal) := by
+    refine ⟨⟨by decide, by decide, by decide, by decide, by decide, by decide⟩, ?_⟩
+    intro v hv
+    simp [wVals, toVal] at hv
+    rcases hv with rfl | rfl | rfl | rfl <;> decide
+  exact ⟨h, h⟩
+
+def pCtx : Evidence.Ctx :=
+  { blocks := [], maxAgeBlocks := 100000, maxAgeDur := 172800000000000, H := fun _ => 0, S := fun _ => 0,
+    sigOK := fun _ _ => false }
+def pPool : PoolEnv :=
+  { ctx := pCtx, sys := Evidence.initSys pCtx 0,
+    decode := fun _ => .dv ⟨⟨0, 0, 0, "", 0, 0, 0, ""⟩, ⟨0, 0, 0, "", 0, 0, 0, ""⟩, 0, 0, 0⟩ }
+
+/-- `accepted_evidence_admissible`: a fresh pool (reachable, alive, empty) and a block accepted in
+the full environment -/
+example : Evidence.MonoTime pPool.ctx ∧ Evidence.Reach pPool.ctx pPool.sys ∧ pPool.sys.dead = false ∧
+    pPool.sys.pool.pending.length < 4294967296 ∧
+    validateBlock (fullEnv (fun _ => wHash) (fun _ _ _ => true) pPool) wState
+      (makeBlock (fullEnv (fun _ => wHash) (fun _ _ _ => true) pPool) wState 2 [] gCommit [] (wAddr 2)) = .ok () := by
+  refine ⟨?_, Evidence.Reach.init 0, rfl, by decide, by rfl⟩
+  intro h1 h2 b1 b2 _ hb1
+  simp [Evidence.blockAt, pPool, pCtx] at hb1
 
 end Tmv.Props.C06
